@@ -4,10 +4,13 @@
 #include "profile.h"
 #include <arpa/inet.h>
 #include <errno.h>
+#include <stdlib.h>
 
 using namespace dnsref;
 
 static Profile g_default_profile;
+extern "C" void __sanitizer_print_stack_trace(void) __attribute__((weak));
+static void sim_debug_backtrace() { if (__sanitizer_print_stack_trace) __sanitizer_print_stack_trace(); }
 
 int World::find_server(const Addr &dst, bool tcp) const {
   for (size_t i = 0; i < servers.size(); i++) {
@@ -291,7 +294,7 @@ void World::server_handle(VFd &s, bool tcp, const std::string &wire, size_t stre
   ServerState &sv = servers[s.server_idx];
   Tx tx;
   tx.id = (int)txs.size(); tx.t = now_us; tx.fd = s.fd; tx.server = s.server_idx; tx.tcp = tcp; tx.wire = wire;
-  tx.api_seq = api_seq; tx.cb_depth = cb_depth; tx.stream_off = stream_off;
+  tx.api_seq = api_seq; tx.cb_depth = cb_depth; tx.stream_off = stream_off; tx.seq = seq;
   tx.decode_err = decode(wire, tx.msg);
   if (tx.decode_err.find("name longer than 255") != std::string::npos) {
     // a name of 256/257 octets: malformed by RFC 1035 but self-consistent; decode leniently and report it separately
@@ -330,6 +333,7 @@ void World::server_handle(VFd &s, bool tcp, const std::string &wire, size_t stre
   tx.behaviour = beh;
   txs.push_back(tx);
   Tx &T = txs.back();
+  if (const char *bt = getenv("SIM_BT_TX")) if (T.qname_lc.find(bt) != std::string::npos) { fprintf(stderr, "=== TX #%d %s srv=%d t=%lld\n", T.id, T.qname_lc.c_str(), T.server, (long long)now_us); sim_debug_backtrace(); }
   if (on_tx) on_tx(T);
   bump(std::string("beh.") + beh_name[beh]);
   if (beh == B_SILENT) return;
